@@ -304,7 +304,7 @@ type world struct {
 
 func caseKey(u *unitCase) string {
 	h := sha256.Sum256(u.Doc.Body)
-	return fmt.Sprintf("%s|%x|%s|%s|%v|%v|%v|%s|%d|%s|%v|%d", u.Kind, h[:8], u.Doc.CT, u.Set.name(), u.ChunkLen, u.EOFLast, u.Pattern, u.BufMode, u.FailAt, u.Stack, u.HighLevel, u.Group) + u.CfgProg
+	return fmt.Sprintf("%s|%x|%s|%s|%v|%v|%v|%s|%d|%s|%v|%d", u.Kind, h[:8], u.Doc.CT, u.Set.name(), u.ChunkLen, u.EOFLast, u.Pattern, u.BufMode, u.FailAt, u.Stack, u.HighLevel, u.Group) + u.CfgProg + u.Middleware + u.HLMode
 }
 
 // eval drives the real code on u, judges it and (toCoq) emits the observation for the model.
@@ -332,10 +332,10 @@ func (w *world) eval(u *unitCase, toCoq bool) (string, obs) {
 				return "skipped", o
 			}
 		}
-		if o.Fatal == "" && !u.Gzip && !bytes.Equal(bytes.Join(o.NetSeen, nil), u.Doc.Body) {
-			o.Fatal = "transport delivered other bytes than the origin served (not a C15 matter)"
+		if o.Fatal == "" && o.Sanity == "" && !u.Gzip && u.HLMode != "buffer-callback" && !bytes.Equal(bytes.Join(o.NetSeen, nil), u.Doc.Body) {
+			o.Sanity = "the bytes read underneath the charset decoder are not the bytes the origin served"
 		}
-		if o.Fatal == "" {
+		if o.Fatal == "" && o.Sanity == "" {
 			// the model is fed with the network reads as they really happened underneath the decoder
 			u.Chunks = o.NetSeen
 			u.EOFLast = o.NetEOFLast
@@ -362,6 +362,10 @@ func (w *world) finish(u *unitCase, o obs, toCoq bool) (string, obs) {
 func (w *world) finishKeyed(u *unitCase, o obs, toCoq bool, key string) (string, obs) {
 	class, fail := judge(u, &o)
 	r := w.r
+	if fail == nil && o.Sanity != "" {
+		fail = &hk.Failure{Sig: fmt.Sprintf("e2e-sanity:%s:%s", u.Stack, o.Sanity), What: "the delivered bytes are a permitted body, but " + o.Sanity,
+			Input: map[string]interface{}{"case": u, "body_hex": hexCap(u.Doc.Body, 300)}}
+	}
 	if fail != nil {
 		r.Fail(*fail)
 	}
@@ -376,6 +380,12 @@ func (w *world) finishKeyed(u *unitCase, o obs, toCoq bool, key string) (string,
 		if u.Gzip {
 			r.Count("e2e:gzip")
 		}
+		if u.Middleware != "" {
+			r.Count("e2e:middleware-" + u.Middleware)
+		}
+		if u.CloneClient {
+			r.Count("e2e:cloned-client")
+		}
 	}
 	r.Count("site:" + string(u.Doc.Site))
 	r.Count("charset:" + u.Doc.Charset)
@@ -385,7 +395,7 @@ func (w *world) finishKeyed(u *unitCase, o obs, toCoq bool, key string) (string,
 	r.Count(fmt.Sprintf("chunks:%d", min(len(u.Chunks), 5)))
 	r.Count("buf:" + u.BufMode)
 	c := hk.Case{Desc: map[string]interface{}{"kind": u.Kind, "case": u, "obs": o, "class": class, "body_hex": hexCap(u.Doc.Body, 200)}}
-	if toCoq && !u.HighLevel && !u.Gzip && o.Fatal == "" && ((u.FailAt < 0 && o.EndErr == "EOF") || (u.FailAt >= 0 && o.EndErr == "other")) && w.coqText < w.coqCap {
+	if toCoq && !u.HighLevel && !u.Gzip && o.Fatal == "" && o.Sanity == "" && ((u.FailAt < 0 && o.EndErr == "EOF") || (u.FailAt >= 0 && o.EndErr == "other")) && w.coqText < w.coqCap {
 		t := buildTables(u)
 		// hypothesis instance check: streaming over this split == one-shot on the whole body (x/text)
 		for n, s := range t.Partial {
